@@ -1114,6 +1114,19 @@ class Interp:
         lc = self.loop_contracts.get(key) if key else None
         if lc is not None and self.on_loop is not None:
             return self.on_loop(self, st, env, key, lc, iterable=it)
+        if isinstance(it, ListObj) and it.symbolic and it.elem == "val" and hasattr(self.world, "trace"):
+            # `for x in <symbolic list>: obs.on_next(x)` == emit the whole sequence, in order
+            b = st.body
+            if (len(b) == 1 and isinstance(b[0], ast.Expr) and isinstance(b[0].value, ast.Call)
+                    and isinstance(b[0].value.func, ast.Attribute) and b[0].value.func.attr == "on_next"
+                    and len(b[0].value.args) == 1 and isinstance(b[0].value.args[0], ast.Name)
+                    and isinstance(st.target, ast.Name) and b[0].value.args[0].id == st.target.id
+                    and not st.orelse):
+                obs = self.eval(b[0].value.func.value, env)
+                if isinstance(obs, Opaque) and obs.kind == "observer":
+                    self.world.trace(obs.name).chunk(it.term)
+                    self.world.events.append(("down", obs.name, "on_next*", it.term))
+                    return
         if isinstance(it, IterVal):
             # consume the iterator step by step (shared position)
             n = 0
